@@ -1,27 +1,45 @@
 """Precompute what depends only on /verif/spec: design-level TLC runs and catalogues
-(cached under /verif/.cache, keyed by the spec modules' content)."""
+(cached under /verif/.cache, keyed by the spec modules' content). Suites run side by side."""
 import shutil
 import sys
 import tempfile
 import time
+from concurrent.futures import ThreadPoolExecutor
 
 from . import coreflow as cf
-from . import core_check
+from . import core_check, export_check
+
+
+def one(args):
+    name, suite, tier, scratch = args
+    t0 = time.time()
+    logs = []
+    d = cf.design_run(suite, tier, scratch, "all", logs.append)
+    paths, info = cf.catalogue(dict(suite, sample={}), tier, scratch, 0, logs.append)
+    return (f"prebuilt {name}: design states={d['states']} catalogue={info['catalogue_states']} "
+            f"({time.time() - t0:.0f}s, cached={d['from_cache']}/{info['from_cache']})")
 
 
 def main():
     tier = sys.argv[1] if len(sys.argv) > 1 else "quick"
-    suites = sorted({s for plan in core_check.PLAN.values() for s in plan[tier]})
+    jobs = {}
+    for plan in core_check.PLAN.values():
+        for s in plan[tier]:
+            jobs[s] = cf.SUITES[s]
+    for name, (suite, _, _) in export_check.suites().items():
+        jobs[name] = suite
     scratch = tempfile.mkdtemp(prefix="vf_prebuild_")
-    logs = []
+    cf.NCPU = 4          # four suites side by side, four TLC workers each
     try:
-        for name in suites:
-            t0 = time.time()
-            suite = cf.SUITES[name]
-            d = cf.design_run(suite, tier, scratch, "all", logs.append)
-            paths, info = cf.catalogue(suite, tier, scratch, 0, logs.append)
-            print(f"prebuilt {name}: design states={d['states']} catalogue={info['catalogue_states']} "
-                  f"({time.time() - t0:.0f}s, cached={d['from_cache']}/{info['from_cache']})", flush=True)
+        import os
+        todo = []
+        for k, (name, suite) in enumerate(sorted(jobs.items())):
+            sc = os.path.join(scratch, name)
+            os.makedirs(sc)
+            todo.append((name, suite, tier, sc))
+        with ThreadPoolExecutor(max_workers=4) as ex:
+            for line in ex.map(one, todo):
+                print(line, flush=True)
     finally:
         shutil.rmtree(scratch, ignore_errors=True)
 
